@@ -313,7 +313,7 @@ theorem freshest_observing (cfg : Cfg) (b T : Nat) (es : List TEvent) (v0 t0 : N
     simp only at hev ht htT
     subst hev
     have harr : arrived (⟨t, .message m false⟩ :: es) = m :: arrived es := by
-      simp [arrived, List.filterMap_cons, Event.msg?]
+      simp [arrived, Event.msg?]
     rw [finalState_cons, step_notification cfg v0 t0 t m v false hobs, harr]
     have htime : decide (t > t0 + cfg.reset) = false := by simp; omega
     have hfr : fresher cfg.reset v0 t0 v t = true ↔ soff b v0 < soff b v := by
@@ -378,7 +378,7 @@ theorem C07_freshest_delivered (cfg : Cfg) (hobs : cfg.observe = true) (b T : Na
     rw [finalState_cons]
     simpa [step, stepFirst, hobs, hobs0] using hfin
   have harr : arrived (⟨t, .message m0 false⟩ :: es) = m0 :: arrived es := by
-    simp [arrived, List.filterMap_cons, Event.msg?]
+    simp [arrived, Event.msg?]
   refine ⟨v1, t1, hfin', C07_state_is_last_handed_over cfg _ v1 t1 hfin', ?_, ?_⟩
   · rw [harr]
     rcases hmem with h | ⟨m', hm', h⟩
@@ -694,26 +694,26 @@ theorem step_afterEnd (cfg : Cfg) (s : ObsState) (e : TEvent) :
     | message m last =>
       simp only [step, stepFirst]
       split
-      · cases last <;> simp [afterEnd, List.dropWhile_cons, Delivery.err?]
+      · cases last <;> simp [afterEnd, Delivery.err?]
       · split
-        · simp [afterEnd, List.dropWhile_cons, Delivery.err?]
-        · split <;> simp [afterEnd, List.dropWhile_cons, Delivery.err?]
-    | exception k => cases ho : cfg.observe <;> simp [step, stepFirst, ho, afterEnd, List.dropWhile_cons, Delivery.err?]
+        · simp [afterEnd, Delivery.err?]
+        · split <;> simp [afterEnd, Delivery.err?]
+    | exception k => cases ho : cfg.observe <;> simp [step, stepFirst, ho, afterEnd, Delivery.err?]
     | obsCancel => simp [step, stepFirst, afterEnd]
-    | respCancel => simp [step, stepFirst, afterEnd, List.dropWhile_cons, Delivery.err?]
+    | respCancel => simp [step, stepFirst, afterEnd, Delivery.err?]
   | observing v1 t1 =>
     cases ev with
     | message m last =>
       cases hobs : m.obs with
-      | none => cases last <;> simp [step, stepObserving, hobs, afterEnd, List.dropWhile_cons, Delivery.err?]
+      | none => cases last <;> simp [step, stepObserving, hobs, afterEnd, Delivery.err?]
       | some v2 =>
         rw [step_notification cfg v1 t1 t m v2 last hobs]
         cases last <;> cases fresher cfg.reset v1 t1 v2 t <;>
-          simp [afterEnd, List.dropWhile_cons, Delivery.err?]
-    | exception k => simp [step, stepObserving, afterEnd, List.dropWhile_cons, Delivery.err?]
+          simp [afterEnd, Delivery.err?]
+    | exception k => simp [step, stepObserving, afterEnd, Delivery.err?]
     | obsCancel => simp [step, stepObserving, afterEnd]
     | respCancel => simp [step, stepObserving, afterEnd]
-  | appCancelled => cases ev <;> simp [step, stepCancelled, afterEnd, List.dropWhile_cons, Delivery.err?]
+  | appCancelled => cases ev <;> simp [step, stepCancelled, afterEnd, Delivery.err?]
   | ended => simp [step, afterEnd]
   | unmodelled => simp [step, afterEnd]
 
